@@ -83,6 +83,9 @@ type redisWorld struct {
 	hostTasks     []*simhook.Task
 	netCounts     map[string]int
 	inconclusive  bool
+	judgeSilent   bool
+	holdProbes    func() bool
+	onProbeStart  func()
 
 	migrations int
 	migActive  int
@@ -139,6 +142,9 @@ func (w *redisWorld) startProbes() {
 	if w.probeRound >= 2 || !w.allFaultsFired() || !w.env.Quiet() || !w.env.Ready() {
 		return
 	}
+	if w.holdProbes != nil && w.holdProbes() {
+		return
+	}
 	settle := time.Duration(w.sc.SettleMs) * time.Millisecond
 	ref := w.lastFault
 	if w.probeStart.After(ref) {
@@ -178,6 +184,9 @@ func (w *redisWorld) startProbes() {
 	}
 	w.probeRound++
 	w.probeStart = time.Now()
+	if w.onProbeStart != nil {
+		w.onProbeStart()
+	}
 	w.probeStartStep = append(w.probeStartStep, w.rt.Step)
 	w.redirectsAtProbe = append(w.redirectsAtProbe, w.env.Cluster.Redirects)
 	for _, cs := range round {
@@ -621,6 +630,17 @@ func (w *redisWorld) waitSites() []string {
 }
 
 func (w *redisWorld) Final() *simrt.Violation {
+	// a backend that stays connected and silent forever is an ongoing fault, not a state after faults stopped:
+	// liveness is not judged then (the proxy has no request timeout; silence without connection loss is outside
+	// C02's fault space, and Stop with silent backends is judged by C09)
+	for _, n := range w.env.Cluster.Nodes {
+		if n.Silent && n.OpenConns() > 0 && !w.judgeSilent {
+			if w.fin != nil {
+				return w.fin(w)
+			}
+			return nil
+		}
+	}
 	// every request on a connection that is still open has exactly one reply
 	for _, c := range w.env.Clients {
 		if c.EOF || c.Reset || !c.Connected {
